@@ -1,0 +1,26 @@
+//go:build verif
+
+// Contracts for the deductive checks under /verif (comment-only; compiled only with -tags verif).
+
+package p2p
+
+//@ func readInt24
+//@   requires len(b) >= 3
+//@   ensures[C17] result == uint32(b[2]) | uint32(b[1])<<8 | uint32(b[0])<<16
+//@   ensures[C17] result <= 16777215
+//@   assigns nothing
+//@   nopanic[C17]
+
+// what putInt24 writes is what readInt24 reads (24-bit frame sizes round-trip)
+//@ func putInt24
+//@   requires len(b) >= 3
+//@   ensures[C17] uint32(b[2]) | uint32(b[1])<<8 | uint32(b[0])<<16 == v & 16777215
+//@   assigns b
+//@   nopanic[C17]
+
+// A frame is read without panicking whatever the peer sends, and no buffer larger than the
+// 24-bit frame size (rounded up to the cipher block) is ever allocated for it.
+//@ func rlpxFrameRW.ReadMsg
+//@   requires rw != nil && rw.dec != nil && rw.ingressMAC != nil && rw.macCipher != nil && rw.conn != nil
+//@   allocbound[C17] $n <= 16777216
+//@   nopanic[C17]
